@@ -148,8 +148,8 @@ class MethodMixin:
                 return self.call_closure(f, [s, c, SV(INT, alen(s.t))], {})
             raise Unsupported("str.count in this encoding")
         if name == "replace" and len(args) == 2 and S.mode_of(s, *args) != "array":
-            return SV(STR, z3.Replace(S.to_native(s), S.to_native(args[0]), S.to_native(args[1]))) if False else \
-                self.engine.extern_required("str.replace")(self, [s] + list(args), kwargs)
+            a2 = [self.to_str(x) if not is_str(x) else x for x in args]
+            return self.engine.extern_required("str.replace")(self, [s] + a2, kwargs)
         if name in ("split", "rsplit", "partition", "rpartition", "join", "replace", "format", "splitlines", "lstrip",
                     "rstrip", "title", "capitalize", "encode", "zfill", "isidentifier"):
             ext = self.engine.extern("str." + name)
